@@ -278,6 +278,64 @@ def _g24(ctx, consumer, rel):
     ctx.col.floor("bucket_param_call_sites", n_sites, 2)
 
 
+def _bucket_params_table(ctx, rel):
+    """S2 by value: `_get_bucket_batch_sampler_params` interpreted (sa/pyinterp.py) for data sets of 0-9 utterances with ties at and
+    between the quantile boundaries, 1-4 requested buckets, static and dynamic sizing: every utterance gets a bucket that HAS a batch
+    size; utterances of equal length share a bucket and a shorter utterance never sits in a later bucket than a longer one (length
+    classes are not mixed); static sizes equal batch_size; a dynamic size x is the greatest with x * (longest length in the bucket) <=
+    batch_size * (longest length in the data set), at least 1."""
+    from sa.pyinterp import PyInterp, Obj
+    from sa.inteval import NotEvaluable
+    col, pkg = ctx.col, ctx.pkg
+    f = pkg.func(f"{MOD}::_get_bucket_batch_sampler_params")
+    names = [p_.name for p_ in f.params]
+
+    def leaf(e, env):
+        if isinstance(e, ast.Call) and call_name(e) == "warnings.warn":
+            return "warned"
+        return None
+    sets = ([], [4], [3, 3, 3, 9], [3, 3, 9, 9, 9, 9], [1, 2, 3, 4, 5, 6, 7, 8], [5, 5, 5, 5, 5], [2, 2, 7, 7, 7, 8, 9, 9, 9], [0, 0, 4, 6], [3, 5, 5], [3, 3, 3, 3, 9, 9, 11])
+    bad, n = None, 0
+    try:
+        for lens in sets:
+            for nb in (1, 2, 3, 4):
+                for bs in (1, 2, 3):
+                    for dyn in (False, True):
+                        mk = lambda L: Obj(shape=(L, 2), size=(lambda d_=None, L=L: L if d_ in (0, -2) else ((L, 2) if d_ is None else 2)))  # noqa: E731
+                        data = [mk(L) if i_ % 2 else (mk(L), "other") for i_, L in enumerate(lens)]
+                        kind, got = PyInterp(leaf=leaf).run(f.node, dict(zip(names, (data, nb, bs, dyn))))
+                        n += 1
+                        problem = None
+                        if kind != "return" or not isinstance(got, tuple) or len(got) != 2:
+                            problem = f"{kind}: {str(got)[:60]}"
+                        else:
+                            i2b, b2s = got
+                            if sorted(i2b) != list(range(len(lens))):
+                                problem = f"buckets are assigned to the indices {sorted(i2b)}"
+                            elif any(b_ not in b2s for b_ in i2b.values()):
+                                problem = f"bucket(s) {sorted(set(i2b.values()) - set(b2s))} are used but have no batch size (sizes: {b2s})"
+                            elif any(i2b[i_] > i2b[j_] for i_ in range(len(lens)) for j_ in range(len(lens)) if lens[i_] <= lens[j_] and lens[i_] < lens[j_]) \
+                                    or any(i2b[i_] != i2b[j_] for i_ in range(len(lens)) for j_ in range(len(lens)) if lens[i_] == lens[j_]):
+                                problem = f"the buckets {i2b} mix length classes (lengths {lens})"
+                            else:
+                                top = max(lens) if lens else 0
+                                for b_ in set(i2b.values()):
+                                    longest = max(L for i_, L in enumerate(lens) if i2b[i_] == b_)
+                                    x = b2s[b_]
+                                    if not dyn and x != bs:
+                                        problem = f"bucket {b_} has the static size {x}, batch_size is {bs}"
+                                    if dyn and longest > 0 and not (x >= 1 and x * longest <= bs * top < (x + 1) * longest):
+                                        problem = f"bucket {b_} (longest utterance {longest}) has the dynamic size {x}; the greatest x with x * {longest} <= {bs} * {top} is {bs * top // longest}"
+                        if problem and bad is None:
+                            bad = (lens, nb, bs, dyn, problem)
+    except NotEvaluable:
+        return False
+    col.count("bucket_params_table_rows", n)
+    col.ob("G12", "S2", f"{rel}::_get_bucket_batch_sampler_params::bucket-params-table", bad is None,
+           (f"lengths {bad[0]}, {bad[1]} bucket(s) requested, batch_size {bad[2]}, dynamic={bad[3]}: {bad[4]}") if bad else "", rel, f.line, sample=dict(rows=n))
+    return True
+
+
 def _bucket_table(ctx, rel) -> bool:
     """S3 by value: `BucketBatchSampler.__iter__` is interpreted (sa/pyinterp.py; nothing is run) over sampler orders, bucket maps and
     batch sizes, with and without dropping, twice in a row on the same sampler object, and the yielded batches are compared with the
@@ -377,6 +435,7 @@ def _bucket_table(ctx, rel) -> bool:
 
 
 def _s3(ctx, rel):
+    _bucket_params_table(ctx, rel)
     if _bucket_table(ctx, rel):
         return
     col, pkg = ctx.col, ctx.pkg
